@@ -309,6 +309,76 @@ def run_case(case):
                               'tallied', key)
                     res.close('T1_table_flow', vals[4] - a.flow_rate,
                               a.flow_rate, 2e-4, 'table flow rate', key)
+                    # the other columns against independent quantities:
+                    # duct heating tallied, heat capacity of the constant
+                    # coolant, mixed-mean rise rebuilt from subchannel flows
+                    B = a._power_delivered['duct']
+                    res.close('T1_table_columns', vals[1] - B,
+                              abs(B) + 1e-9 * (abs(A) + 1.0), 2e-4,
+                              'energy-balance table column B != duct power '
+                              'tallied', dict(key, column='B'))
+                    res.close('T1_table_columns', vals[5] - cp, cp, 2e-4,
+                              'energy-balance table column F != heat '
+                              'capacity of the coolant', dict(key, column='F'))
+                    rise = asm_enthalpy(a.active_region,
+                                        a.active_region.temp, cp) \
+                        / (a.flow_rate * cp) - P['inlet']
+                    if not (a.active_region.is_rodded and
+                            a.active_region.n_bypass > 0 and not
+                            np.sum(a.active_region.byp_flow_rate) > 0):
+                        res.close('T1_table_columns', vals[6] - rise,
+                                  abs(rise) + 1e-3, 5e-4,
+                                  'energy-balance table column G != '
+                                  'mixed-mean coolant temperature rise',
+                                  dict(key, column='G'),
+                                  {'table': vals[6], 'own': rise})
+                    s_exp = vals[0] + vals[2] + vals[3] \
+                        - vals[4] * vals[5] * vals[6]
+                    res.check('T1_table_columns',
+                              abs(vals[7] - s_exp) <= 5e-4 * (
+                                  abs(vals[0]) + abs(vals[2]) + abs(vals[3])
+                                  + abs(vals[4] * vals[5] * vals[6])) + 1e-6,
+                              'energy-balance table SUM %.4e != A + C + D - '
+                              'E F G of the same row (%.4e)'
+                              % (vals[7], s_exp), dict(key, column='SUM'))
+                    if not (has_lag or has_stag):
+                        res.check('T3_reported_balance_closes',
+                                  abs(vals[8]) <= 1e-8,
+                                  'energy-balance table reports an error of '
+                                  '%.3e for assembly %d' % (vals[8], i + 1),
+                                  dict(key, row='assembly'))
+                # GAP and CORE rows
+                for ln in txt.splitlines():
+                    w = ln.split()
+                    if not w or w[0] not in ('GAP', 'CORE'):
+                        continue
+                    nums = [float(x) if x != '---' else None for x in w[1:]]
+                    if w[0] == 'GAP' and core.model == 'flow':
+                        res.close('T1_table_columns',
+                                  nums[4] - core.gap_flow_rate,
+                                  core.gap_flow_rate, 2e-4,
+                                  'GAP row flow rate', dict(key, column='E',
+                                                            row='gap'))
+                    if w[0] == 'CORE':
+                        tot_flow = sum(a.flow_rate for a in r.assemblies) + (
+                            core.gap_flow_rate if core.model == 'flow'
+                            else 0.0)
+                        res.close('T1_table_columns', nums[4] - tot_flow,
+                                  tot_flow, 2e-4, 'CORE row flow rate',
+                                  dict(key, column='E', row='core'))
+                        ptot = sum(sum(a._power_delivered.values())
+                                   for a in r.assemblies)
+                        res.close('T1_table_columns',
+                                  nums[0] + nums[1] - ptot, ptot + 1e-9,
+                                  2e-4, 'CORE row power', dict(
+                                      key, column='A+B', row='core'))
+                    if not (has_lag or has_stag) and not adiabatic and \
+                            core.model == 'flow' and nums[-1] is not None:
+                        res.check('T3_reported_balance_closes',
+                                  abs(nums[-1]) <= 1e-8,
+                                  'energy-balance table reports an error of '
+                                  '%.3e in its %s row' % (nums[-1], w[0]),
+                                  dict(key, row=w[0].lower()))
             except Exception as e:  # table parse problems are not verdicts
                 res.tag('table_parse_failed:' + type(e).__name__)
             # inter-assembly heat transfer table: the six face values of an
